@@ -1,6 +1,7 @@
 package pcv
 
 import (
+	"strings"
 	"go/types"
 
 	"golang.org/x/tools/go/ssa"
@@ -393,6 +394,11 @@ func (s *Sel) checkPostorder(c *Ctx, ruleID string) {
 	if fnParam == nil || doneParam == nil {
 		c.Bad(rule, "traversal-shape", FirstPos(p, trav), "the traversal has no callback or no visited-set parameter")
 		return
+	}
+	// every requested name and every process behind it is visited: the traversal's iterations end by exhaustion
+	// or by returning an error
+	if ex := EarlyLoopExits(p, trav, true); true {
+		c.Check(len(ex) == 0, rule, "exhaustive:"+p.FuncKey(trav), FirstPos(p, trav), "iterations run to exhaustion", "the traversal leaves an iteration early ("+strings.Join(ex, ", ")+"), e.g. at the first already-visited process: the processes after it are missing from the run order / the ordered shutdown list")
 	}
 	isCb := func(in ssa.Instruction) bool {
 		call, ok := in.(*ssa.Call)
